@@ -267,6 +267,22 @@ class Ctx:
     stmt_stack: list = field(default_factory=list)
 
 
+def _boolean_shaped(e: ast.AST) -> bool:
+    """An expression that can only be a truth value: a negation, a comparison, a boolean combination of such, or a call of a
+    predicate (`is_*`, `has_*`, `*_is_empty`, isinstance, callable)."""
+    if isinstance(e, ast.UnaryOp) and isinstance(e.op, ast.Not):
+        return True
+    if isinstance(e, ast.Compare):
+        return True
+    if isinstance(e, ast.BoolOp):
+        return all(_boolean_shaped(v) for v in e.values)
+    if isinstance(e, ast.Call):
+        name = e.func.attr if isinstance(e.func, ast.Attribute) else getattr(e.func, "id", "")
+        name = name.lstrip("_")
+        return name.startswith(("is_", "has_", "isinstance", "callable")) or "_is_" in name
+    return False
+
+
 class Interp:
     def __init__(self, analysis: Analysis, fn: FunctionInfo, max_iter: int = 50) -> None:
         self.a = analysis
@@ -276,6 +292,7 @@ class Interp:
         self.atoms_walked = 0
         self.stmts_walked = 0
         self._inline_stack: list = []
+        self._refine_depth = 0
         self.inlined: set[str] = set()
         analysis.fn = fn
         analysis.interp = self
@@ -555,6 +572,20 @@ class Interp:
             # negated one (guard clauses, swapped arms)
             t, f = self._refine(test.operand, facts)
             return f, t
+        if isinstance(test, ast.Name) and getattr(self.a, "resolve_test_locals", True) and getattr(self.a, "fn", None) is not None and not isinstance(self.a.fn.node, ast.Lambda):
+            # `flag = <condition>` ... `if flag:` - a boolean held in a single-assignment local is read as the condition it names
+            try:
+                from .analyses.buffers import assignments
+                vals = assignments(self.a.fn).get(test.id, [])
+            except Exception:  # noqa: BLE001
+                vals = []
+            if len(vals) == 1 and _boolean_shaped(vals[0]) and not any(isinstance(x, (ast.Await, ast.Yield, ast.YieldFrom, ast.NamedExpr)) for x in ast.walk(vals[0])) \
+                    and not any(isinstance(x, ast.Name) and x.id == test.id for x in ast.walk(vals[0])) and self._refine_depth < 3:
+                self._refine_depth += 1
+                try:
+                    return self._refine(vals[0], facts)
+                finally:
+                    self._refine_depth -= 1
         if isinstance(test, ast.Call) and getattr(self.a, "inline_predicates", True) and getattr(self.a, "fn", None) is not None and len(self._inline_stack) < self.INLINE_DEPTH:
             # `if self.__is_x(exc):` where the private helper is one `return <boolean expression>` over its parameters' namesakes:
             # refine on that expression
